@@ -153,6 +153,12 @@ func FilesRead() []string { return readLog }
 // time not proportional to the input). Natively the replay watchdog plays that role.
 func LoopBound(n int) {}
 
+// WorkBound declares that, from here on, the regular-expression searches of the code under test may
+// look at no more than n input bytes in total (the engine counts them: the matcher is native, so its
+// work does not show as loop iterations). Exceeding it is reported like an over-long loop. Natively
+// the replay watchdog plays that role, on an input large enough for quadratic work to take minutes.
+func WorkBound(n int) {}
+
 // Bound records a bound of the harness in the evidence.
 func Bound(name string, v int) {}
 
